@@ -43,6 +43,9 @@ def match(m, r, quirks, path, out, stream_data=None):
             out.append((path, "name", "expected /%r, got %r" % (want, r), None))
         elif r is not b["LIT"](want):
             out.append((path, "name-not-interned", "%r" % (r,), None))
+    elif isinstance(m, (bytes, bytearray)):
+        if type(r) is not bytes or r != bytes(m):
+            out.append((path, "string", "expected %r, got %r" % (m, r), None))
     elif isinstance(m, Str):
         if type(r) is not bytes or r != m.b:
             q = quirks.get(id(m)) if quirks else None
